@@ -79,7 +79,7 @@ def _many_vars_case(job):
     return out
 
 
-ACCESS = ("direct", "dynamic", "byref")
+ACCESS = ("direct", "dynamic", "byref", "byref-forwarded", "dynamic-byref")
 ALLOC = (None, 0, 1, 200)
 
 
@@ -105,6 +105,14 @@ def access_case(job):
         @pt.Subroutine(pt.TealType.uint64)
         def getref(v: pt.ScratchVar):
             return v.load()
+
+        @pt.Subroutine(pt.TealType.none)
+        def setref2(v: pt.ScratchVar, x: pt.Expr):          # forwards its by-reference parameter to another routine
+            return setref(v, x)
+
+        @pt.Subroutine(pt.TealType.uint64)
+        def getref2(v: pt.ScratchVar):
+            return getref(v)
         writes, reads = [], []
         for i, ((access, sid), v) in enumerate(zip(kinds, vars_)):
             val = pt.Int(100 + i)
@@ -112,8 +120,12 @@ def access_case(job):
                 writes.append(v.store(val)); reads.append(v.load())
             elif access == "dynamic":
                 writes.append(pt.Seq(dyn.set_index(v), dyn.store(val))); reads.append(pt.Seq(dyn.set_index(v), dyn.load()))
-            else:
+            elif access == "byref":
                 writes.append(setref(v, val)); reads.append(getref(v))
+            elif access == "byref-forwarded":
+                writes.append(setref2(v, val)); reads.append(getref2(v))
+            else:   # a DynamicScratchVar pointing at the variable is itself passed by reference
+                writes.append(pt.Seq(dyn.set_index(v), setref(dyn, val))); reads.append(pt.Seq(dyn.set_index(v), getref(dyn)))
         prog = pt.Seq(*writes, *[pt.Assert(rd == pt.Int(100 + i)) for i, rd in enumerate(reads)], pt.Approve())
         kw = {"optimize": pt.OptimizeOptions(**opts)} if opts else {}
         teal = pt.compileTeal(prog, pt.Mode.Application, version=version, **kw)
@@ -247,7 +259,7 @@ def run(report: Report, tier, seed):
         ar = list(ex.map(access_case, aj, chunksize=8))
     abad = [r for r in ar if r["problem"]]
     report.bounded.append(Bounded(function="compileTeal: variables reached through one access path only", contract="own cell whatever the access path (direct / DynamicScratchVar / by reference) and numbering (auto / explicit 0, 1, 200); duplicate requested ids rejected",
-                                  bound=f"all sequences of <= 2 variables over 3 access paths x 4 numberings, {'260 sampled' if tier == 'quick' else 'all 1728'} triples, versions 6..10 x option settings",
+                                  bound=f"all sequences of <= 2 variables over 5 access paths x 4 numberings, {'260 sampled' if tier == 'quick' else 'all 8000'} triples, versions 6..10 x option settings",
                                   cases=len(ar), distinct_nontrivial=len(ar), failures=len(abad)))
     bad = [r for r in res if r["problems"]]
     fbad = [r for r in fl if r["problem"]]
